@@ -1030,8 +1030,20 @@ func send(ctx context.Context, s *Session, r xml.TokenReader, start *xml.StartEl
 	if err != nil {
 		return err
 	}
-	_, err = xmlstream.Copy(s.out.e, r)
+	tw := &openTracker{w: s.out.e}
+	_, err = xmlstream.Copy(tw, r)
 	if err != nil {
+		// The payload failed part of the way through. What has been written
+		// cannot be taken back, but left open it would swallow every element sent
+		// after it: close what this call opened.
+		for i := len(tw.open) - 1; i >= 0; i-- {
+			/* #nosec */
+			s.out.e.EncodeToken(xml.EndElement{Name: tw.open[i]})
+		}
+		/* #nosec */
+		s.out.e.EncodeToken(start.End())
+		/* #nosec */
+		s.out.e.Flush()
 		return err
 	}
 	err = s.out.e.EncodeToken(start.End())
@@ -1039,6 +1051,29 @@ func send(ctx context.Context, s *Session, r xml.TokenReader, start *xml.StartEl
 		return err
 	}
 	return s.out.e.Flush()
+}
+
+// openTracker remembers which of the elements written through it are still
+// open.
+type openTracker struct {
+	w    xmlstream.TokenWriter
+	open []xml.Name
+}
+
+func (t *openTracker) EncodeToken(tok xml.Token) error {
+	err := t.w.EncodeToken(tok)
+	if err != nil {
+		return err
+	}
+	switch el := tok.(type) {
+	case xml.StartElement:
+		t.open = append(t.open, el.Name)
+	case xml.EndElement:
+		if n := len(t.open); n > 0 {
+			t.open = t.open[:n-1]
+		}
+	}
+	return nil
 }
 
 func isIQ(name xml.Name) bool {
